@@ -4,6 +4,7 @@ PROPS = {
     'C13': dict(
         title='Optimised hashing and the transcript sponge equal their specification',
         design_ref='DESIGN.md section 4 / C13',
+        bounded=[('plonky2', ['c13_'])],
         vspecs=['contracts/C13/poseidon_mds.vspec', 'contracts/C13/hashing.vspec', 'contracts/C04/challenger.vspec'],
         level_text='Unbounded deductive proof (Verus/Z3) that (i) the frequency-domain MDS multiplication (fft4/ifft4, block1-3, mds_multiply_freq) computes the '
                    'exact integer circulant product and the Goldilocks mds_layer returns, for ALL 2^64 representations of every state element, the published '
@@ -34,7 +35,8 @@ PROPS = {
     'C12': dict(
         title='Merkle commitments open only to the committed leaf at the committed position',
         design_ref='DESIGN.md section 4 / C12',
-        vspecs=['contracts/C12/merkle_verify.vspec'],
+        bounded=[('plonky2', ['c12_'])],
+        vspecs=['contracts/C12/merkle_verify.vspec', 'contracts/C12/merkle_types.vspec'],
         level_text='Unbounded deductive proof (Verus/Z3), over an uninterpreted hasher, that the real verify_batch_merkle_proof_to_cap / '
                    'verify_merkle_proof_to_cap return Ok exactly when the textbook path fold of the leaf digest with the siblings, directed by the '
                    'index bits, equals the cap entry addressed by the remaining index bits; all indexing and the height countdown are proved panic-free '
@@ -48,6 +50,7 @@ PROPS = {
     'C04': dict(
         title='Fiat-Shamir challenges depend on the whole statement and prior transcript',
         design_ref='DESIGN.md section 4 / C04',
+        bounded=[('plonky2', ['c04_'])],
         vspecs=['contracts/C04/challenger.vspec', 'contracts/C04/transcript.vspec'],
         level_text='Unbounded deductive proof (Verus/Z3) that (i) every Challenger method implements the overwrite-mode duplex sponge state machine '
                    '(absorbing invalidates buffered outputs; a challenge is drawn only after pending inputs were duplexed), and (ii) get_challenges / '
@@ -64,6 +67,7 @@ PROPS = {
     'C05': dict(
         title='FRI opening proofs attest only true evaluations of low-degree polynomials',
         design_ref='DESIGN.md section 4 / C05',
+        bounded=[('plonky2', ['c05_'])],
         vspecs=['contracts/C05/fri_verifier.vspec', 'contracts/C18/fri_shape.vspec', 'contracts/C12/merkle_verify.vspec'],
         level_text='Unbounded deductive proof (Verus/Z3) of the verifier check skeleton: verify_fri_proof returns Ok only if the shape is valid, the '
                    'proof-of-work response has the required leading zeros, the number of query rounds equals the configured one, and for EVERY '
@@ -79,6 +83,7 @@ PROPS = {
     'C03': dict(
         title='Accepted proofs are bound to each of their elements and to their circuit',
         design_ref='DESIGN.md section 4 / C03',
+        bounded=[('plonky2', ['c03_'])],
         vspecs=['contracts/C03/plonk_verifier.vspec', 'contracts/C05/fri_verifier.vspec', 'contracts/C18/fri_shape.vspec', 'contracts/C12/merkle_verify.vspec',
                 'contracts/C04/transcript.vspec', 'contracts/C04/challenger.vspec'],
         level_text='Unbounded deductive proof (Verus/Z3) of the acceptance skeleton of the real verifier code: verify() returns Ok only if shape validation '
@@ -96,6 +101,7 @@ PROPS = {
     'C18': dict(
         title='Verifiers and proof decoders fail cleanly on malformed input',
         design_ref='DESIGN.md section 4 / C18',
+        bounded=[('plonky2', ['c03_c18_', 'c18_'])],
         vspecs=['contracts/C18/fri_shape.vspec', 'contracts/C05/fri_verifier.vspec', 'contracts/C03/plonk_verifier.vspec', 'contracts/C12/merkle_verify.vspec', 'contracts/C15/util_log2.vspec'],
         level_text='Unbounded deductive proof (Verus/Z3) that, with NO precondition on the proof value beyond its Rust type, FRI shape validation and the '
                    'FRI verifier reach no failing index, slice, subtraction, shift, unwrap or assertion: every such operation in the extracted '
